@@ -377,6 +377,45 @@ fn fixed_domain(l: Layout, tier: Tier) -> Dom {
 /// integer type the floor of the value and its two neighbours; for a float type the float nearest to the value and
 /// the floats one and two units in the last place either side of it (equal, or apart by less than either operand's
 /// resolution, for irregular mid-range bit patterns as well)
+/// Floats *related to the layout* for the float -> fixed conversions, which a product of a float alphabet with the
+/// layouts cannot contain: for the extremes of the type, zero, one ulp, one and some mid-range patterns v, the
+/// floats (4v + q) / 4 ulp for q = -3..3 (a quarter, a half — the tie — and three quarters of an ulp either side of
+/// v; exact whenever 4v + q fits the float's precision, the nearest float otherwise) and the two floats on either
+/// side of each. These decide "overflow is judged on the rounded value" at max + 1/4 ulp, max + 1/2 ulp (tie to
+/// even), min - 1/2 ulp, and the rounding direction next to every such v.
+fn related_floats(l: Layout, prim: usize) -> Vec<u128> {
+    let m = mask(l.w);
+    let mut vs: Vec<u128> = vec![l.max_raw(), l.max_raw() - 1, l.min_raw(), l.min_raw().wrapping_add(1) & m, 0, 1, m, 2, 3, l.max_raw() >> 1, (l.max_raw() >> 1) + 1];
+    if l.frac < l.w {
+        let one = 1u128 << l.frac;
+        vs.extend([one & m, one.wrapping_neg() & m, one.wrapping_add(1) & m, one.wrapping_sub(1) & m]);
+    }
+    vs.extend(alpha::boundary(l, Tier::Quick).into_iter().step_by(9));
+    let top: u128 = if prim == 13 { 0xffff_ffff } else { u64::MAX as u128 };
+    let mut out = vec![];
+    let mut seen = std::collections::HashSet::new();
+    for v in vs {
+        let z = l.z(v);
+        for q in -3i64..=3 {
+            let t = z.shl(2).add(Z::from_i128(q as i128));
+            let neg = t.is_neg();
+            let mag = t.abs();
+            if !mag.fits_u128() {
+                continue;
+            }
+            let mag = mag.low128();
+            let bits: u128 = if prim == 13 { vcore::ieee::encode_f32(neg, mag, l.frac + 2) as u128 } else { vcore::ieee::encode_f64(neg, mag, l.frac + 2) as u128 };
+            for d in [0i128, 1, -1, 2, -2] {
+                let b = bits as i128 + d;
+                if b >= 0 && (b as u128) <= top && seen.insert(b as u128) {
+                    out.push(b as u128);
+                }
+            }
+        }
+    }
+    out
+}
+
 fn related_partners(l: Layout, a: u128, prim: usize) -> Vec<u128> {
     let mut v = vec![];
     if let Some(pl) = prim_layout(prim) {
@@ -539,7 +578,8 @@ fn run_layout(e: &Entry, pd: &PrimDom, prop: Prop, tier: Tier) -> JobOut {
         // prim -> fixed
         let any_from = (0..5).chain(12..14).any(|k| selects(prop, k, prim));
         if any_from {
-            for &b in if ponly && prim >= 13 { &pd.cmp[prim] } else { &pd.conv[prim] } {
+            let relf = if prim >= 13 { related_floats(l, prim) } else { vec![] };
+            for &b in (if ponly && prim >= 13 { &pd.cmp[prim] } else { &pd.conv[prim] }).iter().chain(relf.iter()) {
                 rep.states += 1;
                 if b != 0 {
                     rep.nontrivial_states += 1;
